@@ -287,7 +287,28 @@ def run(chk):
         r = attempt(lambda: cls(**kw), f'{name}({pname}={jv!r})')
         if r: return (r[0], r[1], dict(r[2], kwargs=repr(kw)))
     cc = list(ctor_cases())
-    if chk.tier == 'quick': chk.rng.shuffle(cc); cc = cc[:8000]
+    if chk.tier == 'quick':
+        # the sample always contains the numeric extremes on every property of the 2.1 observables (their identifiers are derived from the values, outside the per-property error wrapping)
+        must = [c for c in cc if c[3] == '2.1' and c[1] == 'observables' and isinstance(c[5], int) and not isinstance(c[5], bool) and abs(c[5]) > 2**64]
+        chk.rng.shuffle(cc); cc = must + cc[:8000]
+    def id_less_cases():
+        EXTD = 'extension-definition--' + G.UUID2
+        for cname, (cat, cls) in sorted(G.classes('2.1').items()):
+            if cat != 'observables': continue
+            base = {k: v for k, v in G.minimal(cls, '2.1').items() if k != 'id'}
+            for jv in (10**400, -10**400, float('inf'), float('nan'), 2**70, [10**400], {'n': 10**400}):
+                for pname in cls._id_contributing_properties:
+                    yield (cname, cls, dict(base, **{pname: jv}), f'{pname}={str(jv)[:12]}')
+                if 'extensions' in cls._properties: yield (cname, cls, dict(base, extensions={EXTD: {'extension_type': 'property-extension', 'n': jv}}), f'extension content {str(jv)[:12]}')
+    def check_id_less(case):
+        cname, cls, kw, what = case
+        d = dict({'type': cname.split(':')[1], 'spec_version': '2.1'}, **kw)
+        for fn, nm in ((lambda: cls(**copy.deepcopy(kw)), 'constructor'), (lambda: cls(allow_custom=True, **copy.deepcopy(kw)), 'constructor(allow_custom)'), (lambda: stix2.parse(copy.deepcopy(d)), 'parse'),
+                       (lambda: stix2.parse_observable(copy.deepcopy(d), version='2.1', allow_custom=True), 'parse_observable(allow_custom)')):
+            r = attempt(fn, f'{nm} of {cname} without id, {what}')
+            if r: return (r[0] + ':identifier derivation', r[1], dict(r[2], kwargs=repr(kw)[:300]))
+    chk.bounded('2.1 observables without id: numeric extremes in identifier-contributing values', list(id_less_cases()), check_id_less, classify=lambda c: (c[0], c[3]),
+                bound='every 2.1 observable type x every identifier-contributing property (and unregistered extension content) x 7 extreme values x constructor / parse / parse_observable')
     chk.bounded('constructors (incl. embedded and extension classes): one property replaced by a wrong-kind value', cc, check_ctor,
                 classify=lambda c: (c[0], c[4]), bound='every class of both versions x every property x 6 junk values' + (' (8000-case subset)' if chk.tier == 'quick' else ''))
     now = {v: {c: dict(m) for c, m in cats.items()} for v, cats in registry.STIX2_OBJ_MAPS.items()}
